@@ -357,6 +357,7 @@ def find_or_make_sum(ex, st, body, lo, hi):
     for ss in ctx.sums:
         rj = z3.simplify(ss.body(j))
         if bj.eq(rj):
+            ensure_sign(ex, st, ss, lo, hi)
             return ss.fn(lo, hi)
     # inside grounding (lazy instantiation of a quantified hypothesis) only the syntactic match is
     # used: a semantic match would re-enter the grounding of the same hypotheses
@@ -378,23 +379,46 @@ def find_or_make_sum(ex, st, body, lo, hi):
                 if r["status"] == "unsat":
                     ctx.sigma_matches = getattr(ctx, "sigma_matches", 0) + 1
                     if how == "same":
+                        ensure_sign(ex, st, ss, lo, hi)
                         return ss.fn(lo, hi)
+                    ensure_sign(ex, st, ss, ss.lo, ss.hi)
                     return ss.fn(ss.lo, ss.hi)
     ss = SumSym(fresh_name("Sigma"), body)
     ss.lo, ss.hi = lo, hi
     ctx.sums.append(ss)
-    if not getattr(ctx, "_grounding", 0):
-        # E2 rule: a sum of positive (non-negative) terms over a non-empty range is positive (non-negative)
-        for attr, rel in (("positive", bj > 0), ("nonneg", bj >= 0)):
-            ob = Obligation(id="sigma-sign", kind="lemma", func=ctx.func, label="sigma-sign", pc=list(st.pc),
-                            goal=z3.Implies(z3.And(lo <= j, j < hi), rel), qassumes=list(st.qassumes), sums=[("term", j)])
-            r = check(ob, ctx, timeout_ms=500, want_model=False, use_cvc5=False, wall_ms=3000)
-            if r["status"] == "unsat":
-                setattr(ss, attr, True)
-                if attr == "positive":
-                    ss.nonneg = True
-                break
+    ensure_sign(ex, st, ss, lo, hi)
     return ss.fn(lo, hi)
+
+
+def ensure_sign(ex, st, ss, lo, hi):
+    """E2 rule: a sum of positive (non-negative) terms over a non-empty range is positive
+    (non-negative).  The sign of the body is proved under the hypotheses of the current path and
+    the conclusion (about this one application) is added to this path only."""
+    from .solve import check
+    from .state import Obligation
+
+    ctx = ex.ctx
+    if getattr(ctx, "_grounding", 0):
+        return
+    j = z3.Int(fresh_name("sj"))
+    bj = ss.body(j)
+    app = ss.fn(lo, hi)
+    key = ("sign", app.get_id())
+    if st.ghost.get(key):
+        return
+    st.ghost[key] = True
+    for how, rel in (("positive", bj > 0), ("nonneg", bj >= 0), ("nonpos", bj <= 0)):
+        ob = Obligation(id="sigma-sign", kind="lemma", func=ctx.func, label="sigma-sign", pc=list(st.pc),
+                        goal=z3.Implies(z3.And(lo <= j, j < hi), rel), qassumes=list(st.qassumes), sums=[("term", j)])
+        r = check(ob, ctx, timeout_ms=500, want_model=False, use_cvc5=False, wall_ms=3000)
+        if r["status"] == "unsat":
+            if how == "positive":
+                st.assume(z3.And(app >= 0, z3.Implies(lo < hi, app > 0)))
+            elif how == "nonneg":
+                st.assume(app >= 0)
+            else:
+                st.assume(app <= 0)
+            break
 
 
 def reduce_sum(ex, st, sp, node):
